@@ -668,6 +668,13 @@ class Interp(object):
         if isinstance(st, ast.For):
             elems = None
             it = self.subst(st.iter, state) if self.symbolic else st.iter
+            hops = 0
+            while isinstance(it, ast.IfExp) and hops < 4:
+                # for v in (A if c else B): the iterable is chosen by the condition
+                hops += 1
+                chosen = it.body if self.cond(it.test, state, trace) else it.orelse
+                st = ast.copy_location(ast.For(target=st.target, iter=chosen, body=st.body, orelse=st.orelse), st)
+                it = chosen
             for cand in ([st.iter] if it is st.iter else [it, st.iter]):
                 for pattern, fn in self.iters:
                     env = pm.match(pattern, cand)
